@@ -12,7 +12,10 @@
        subroutine and the subroutines sent so far.  The held subroutine is a VALUE:
        every compile() builds a fresh subroutine from the pending commands, so
        instantiating one round never shows in a later round (the real code must not
-       alias compiled Subroutine objects, which instantiate() rewrites in place).
+       alias compiled Subroutine objects, which instantiate() rewrites in place);
+       `SInstantiate v` takes the valuation as a value at the time of the call (what the
+       host does with its dictionary afterwards cannot change what is committed), and a
+       failed instantiate() leaves the held subroutine untouched.
        The model follows the repaired
        code: compile() resets the bookkeeping exactly like a flush
        (`compile_noreset` is the old behaviour, kept for the regression example).
@@ -117,6 +120,9 @@ Inductive sop :=
 | SFlush
 | SCompile
 | SInstantiate (v : string -> Z)
+| SInstantiateFail                 (* instantiate() that raises (a template has no value): the
+                                      held subroutine must be left exactly as it was, so that a
+                                      retry with complete values fills ALL templates *)
 | SCommit.
 
 Definition pop_pending (ex : exempt_t) (c : conn) : option sub :=
@@ -147,6 +153,7 @@ Definition apply_op (ex : exempt_t) (c : conn) (o : sop) : conn :=
       end
   | SInstantiate v =>
       mkConn (pending c) (arrs_ret c) (regs_ret c) (next_addr c) (option_map (subst_sub v) (held c)) (sent c)
+  | SInstantiateFail => c
   | SCommit =>
       match held c with
       | Some s => mkConn (pending c) (arrs_ret c) (regs_ret c) (next_addr c) None (sent c ++ [s])
